@@ -496,6 +496,72 @@ pub fn smaller_path_family(len: usize, ncopies: usize, extra: usize) -> Vec<Q> {
     v
 }
 
+/// Hub x linked (same predicate, same position) to `k` indistinguishable siblings, EVERY edge asserted
+/// in each of the `graphs` graph names (related lists like [b, b, c, c]); plus a near-twin component
+/// y with the same shape whose siblings differ from x's only at distance 2 (`twist`): x and y share
+/// their first-degree hash without being exchanged by an automorphism, so that step 5.3 must order
+/// them by n-degree hash.
+///   twist 0: exact twin (automorphic);  1: one sibling of y carries a literal;
+///   2: one sibling of y has an extra outgoing edge to an IRI;  3: siblings of y are linked to each other
+pub fn multi_edge_twins(k: usize, graphs: &[Option<&str>], twist: usize, outward: bool, p: &str) -> Vec<Q> {
+    let mut v = vec![];
+    for (c, pre) in ["x", "y"].iter().enumerate() {
+        let hub = T::Bnode(format!("{}h", pre));
+        for i in 0..k {
+            let sib = T::Bnode(format!("{}s{}", pre, i));
+            for g in graphs {
+                let g = g.map(iri);
+                v.push(if outward { quad(hub.clone(), iri(p), sib.clone(), g) } else { quad(sib.clone(), iri(p), hub.clone(), g) });
+            }
+        }
+        if c == 1 {
+            let s0 = T::Bnode(format!("{}s0", pre));
+            match twist {
+                1 => v.push(quad(s0, iri("x:r0"), T::Lit("1".into(), "http://www.w3.org/2001/XMLSchema#integer".into()), None)),
+                2 => v.push(quad(s0, iri("x:r0"), iri("x:o"), Some(iri(G0)))),
+                3 => v.push(quad(s0, iri("x:r0"), T::Bnode(format!("{}s1", pre)), None)),
+                _ => {}
+            }
+        } else if twist == 3 {
+            // keep the first-degree hashes of the x siblings equal to those of the y siblings
+            v.push(quad(T::Bnode("xs1".into()), iri("x:r0"), T::Bnode("xs0".into()), None));
+        }
+    }
+    v
+}
+
+/// enumeration orders of one and the same quad set: duplicates of an edge (same s p o, other graph)
+/// adjacent / interleaved / reversed / shuffled
+pub fn enumeration_orders(quads: &[Q], rng: &mut Rng, shuffles: usize) -> Vec<(&'static str, Vec<Q>)> {
+    let mut out = vec![];
+    let mut grouped = quads.to_vec();
+    grouped.sort();
+    let mut by_graph = quads.to_vec();
+    by_graph.sort_by(|a, b| (&a.g, &a.s, &a.p, &a.o).cmp(&(&b.g, &b.s, &b.p, &b.o)));
+    let mut by_object = quads.to_vec();
+    by_object.sort_by(|a, b| (&a.p, &a.g, &b.o, &a.s).cmp(&(&b.p, &b.g, &a.o, &b.s)));
+    let mut rev = grouped.clone();
+    rev.reverse();
+    // "c b b c": first and last duplicate group swapped around the middle ones
+    let mut mixed = grouped.clone();
+    let n = mixed.len();
+    if n >= 4 {
+        mixed.swap(0, n / 2);
+        mixed.swap(1, n - 1);
+    }
+    out.push(("grouped", grouped));
+    out.push(("by_graph", by_graph));
+    out.push(("by_object", by_object));
+    out.push(("reversed", rev));
+    out.push(("mixed", mixed));
+    for _ in 0..shuffles {
+        let mut v = quads.to_vec();
+        shuffle(&mut v, rng);
+        out.push(("shuffled", v));
+    }
+    out
+}
+
 pub fn random_graph(rng: &mut Rng, nb: usize, nq: usize) -> Vec<Q> {
     let preds = [P0, P1];
     let mut v = vec![];
